@@ -582,6 +582,18 @@ impl VLog {
 		Ok(vlog)
 	}
 
+	/// Forgets every open file and re-reads the value-log directory. Called after
+	/// `restore_from_checkpoint` has replaced the directory: the writer and the
+	/// cached read handles would otherwise keep pointing at the removed files.
+	pub(crate) fn reload(&self) -> Result<()> {
+		*self.writer.write() = None;
+		self.file_handles.write().clear();
+		self.files_map.write().clear();
+		self.next_file_id.store(1, Ordering::SeqCst);
+		self.active_writer_id.store(0, Ordering::SeqCst);
+		self.prefill_file_handles()
+	}
+
 	/// Appends a key+value pair to the log and returns a ValuePointer
 	pub(crate) fn append(&self, key: &[u8], value: &[u8]) -> Result<ValuePointer> {
 		// Ensure we have a writer
